@@ -229,6 +229,46 @@ func (p *Program) VerifyFunc(fi *FuncInfo) (res *FuncResult) {
 		e.Ctx.AddObligation(res.Func, "vacuity", res.Func+"/vacuity/returns", True, False, e.pos(fi.Decl.Pos())).MustFail = true
 	} else {
 		e.canary(final, "exit", fi.Decl.Body.Rbrace)
+		// ghost assignments of the contract (`ghostset`), executed at exit
+		if len(c.GhostSets) > 0 {
+			gpost := final.Clone()
+			for o, v := range e.entryParams {
+				if _, isParam := o.(*types.Var); isParam && !e.boxed[o] && !isResult(f, o) {
+					gpost.Vars[o] = v
+				}
+			}
+			e.specRes = results
+			e.specOld = e.old
+			for _, gs := range c.GhostSets {
+				if err := p.CheckClause(c, gs.Value, sc.pos, sc); err != nil {
+					res.Unsupported = append(res.Unsupported, err.Error())
+					continue
+				}
+				ds := e.designators(gpost, c, gs.Target, sc)
+				if len(ds) != 1 || ds[0].whole || ds[0].ref.S == "" {
+					res.Unsupported = append(res.Unsupported, fmt.Sprintf("%s: ghostset target %q is not a single ghost location", gs.Value.Line, gs.Target))
+					continue
+				}
+				e.spec++
+				val := e.eval(gpost.Clone(), gs.Value.Expr)
+				e.spec--
+				cur := Select(e.heapGet(final, ds[0].key), ds[0].ref)
+				if gs.When != nil {
+					if err := p.CheckClause(c, gs.When, sc.pos, sc); err != nil {
+						res.Unsupported = append(res.Unsupported, err.Error())
+						continue
+					}
+					val = Ite(e.evalSpec(gpost, gs.When), val, cur)
+				}
+				if val.Sort != cur.Sort {
+					res.Unsupported = append(res.Unsupported, fmt.Sprintf("%s: ghostset %s: value has sort %s, location %s", gs.Value.Line, gs.Target, val.Sort, cur.Sort))
+					continue
+				}
+				nv := Store(e.heapGet(final, ds[0].key), ds[0].ref, val)
+				e.heapSet(final, ds[0].key, nv)
+				e.heapSet(gpost, ds[0].key, nv)
+			}
+		}
 		// postconditions: parameters denote their entry values
 		post := final.Clone()
 		for o, v := range e.entryParams {
